@@ -234,6 +234,70 @@ class Judge:
                 return
 
 
+def ultralong_shard(desc):
+    """One stream of tens to hundreds of millions of observations (driver op AR: cyclic adds, no tokens), with the marker
+    state dumped after every observation in a window of 50 around every power of two and power of ten on the way.  Judged
+    by (A) step conformance between consecutive dumps - which needs no simulation of the whole stream - and the C15
+    invariants; the pool of values is fixed, so the running minimum / maximum are known."""
+    rng = random.Random(desc['seed'])
+    J = Judge(desc['variant'])
+    p = rng.choice([0.5, 0.9, 0.1, 1.0 / 3.0, 0.75])
+    pool = [rng.gauss(0, 1) * 50 + rng.choice([0.0, 0.0, 200.0]) for _ in range(499)]
+    kmax = desc['kmax']
+    targets = sorted(set([2 ** k for k in range(10, kmax + 1)] + [10 ** k for k in range(4, 10) if 10 ** k < 2 ** kmax]))
+    c = Case('%s-ultra' % desc['name'], 'Quantile', [p], meta={'kind': 'ultralong', 'targets': targets})
+    c.op('N', 0)
+    c.op('AR', 0, 998, pool)          # two full cycles: every pool value has been seen
+    pos = 998
+    windows = []
+    for T in targets:
+        start = T - 25
+        if start <= pos:
+            continue
+        c.op('AR', 0, start - pos, pool)
+        pos = start
+        marks = [(c.op('OS', 0), pos, None)]
+        for _ in range(50):
+            x = rng.choice(pool)
+            c.op('A', 0, [x])
+            pos += 1
+            marks.append((c.op('OS', 0), pos, x))
+        windows.append((T, marks))
+    logs = run_driver(desc['binary'], c.text(), timeout=3600)
+    recs = logs.get(c.id)
+    if recs is None:
+        J.r5.inconclusive.append('ultralong case missing')
+        return J.r5, J.r15
+    for r in recs:
+        if r.kind in ('p', 'e', 'd'):
+            for R, P in ((J.r5, 'C05'), (J.r15, 'C15')):
+                R.violation(P, 'Quantile:%s' % ('panic' if r.kind == 'p' else 'harness'),
+                            'Quantile(p=%r) ultralong stream: op %d -> %s %s' % (p, r.op, r.kind, r.rest), c, J.variant)
+    o_by = {r.op: r for r in recs if r.kind == 'o'}
+    s_by = {r.op: r for r in recs if r.kind == 's'}
+    mn, mx = min(pool), max(pool)
+    for T, marks in windows:
+        prev = None
+        for opi, j, x in marks:
+            o, s = o_by.get(opi), s_by.get(opi)
+            if o is None or s is None:
+                continue
+            ctx = '(ultralong stream, after %d observations)' % j
+            J.invariants(p, o.kv, s.kv, j, mn, mx, c, ctx)
+            S = parse_state(s.kv)
+            if prev is not None and x is not None:
+                J.conformance(p, prev, x, S, o.kv, c, ctx)
+                J.r5.count('ultralong_steps_checked')
+            prev = S
+        J.r5.count('ultralong_windows')
+        J.r15.count('ultralong_windows')
+    J.r5.count('ultralong_max_observations', pos)
+    J.r15.count('ultralong_max_observations', pos)
+    J.r5.distinct.add(c.key())
+    J.r15.distinct.add(c.key())
+    return J.r5, J.r15
+
+
 STREAM_KINDS = ('random', 'sorted', 'reversed', 'zigzag', 'trend_up', 'trend_down', 'dups', 'twovalue', 'constant', 'bigmag',
                 'newmin_bursts', 'signed_zero', 'tinymag', 'hugemag', 'nearmax')
 
@@ -369,11 +433,26 @@ def stream_shard(desc):
         if force_long:
             p = rng.choice([0.75, 0.9, 0.1, 1.0 / 3.0, 0.5])
         c = Case('%s-%d' % (desc['name'], i), 'Quantile', [p], meta={'kind': kind})
-        c.op('N', 0)
+        if p == 0.5 and rng.random() < 0.5:
+            c.op('D', 0)        # Quantile::default() is the median estimator: must behave as Quantile::new(0.5)
+            J.r5.count('streams_from_default')
+        else:
+            c.op('N', 0)
         marks = [(c.op('OS', 0), 0)]
+        # invisible operations: a serde round trip / clone_from in mid-stream must not change what later observations do
+        noisy = common.has_serde(desc['variant']) and rng.random() < 0.2
+        if noisy:
+            J.r5.count('streams_with_invisible_ops')
         if n <= desc['dense']:
             for j, x in enumerate(xs, 1):
                 c.op('A', 0, [x])
+                if noisy and rng.random() < 0.08:
+                    if rng.random() < 0.7:
+                        c.op('S', 0, rng.choice(['j', 'v']))
+                    else:
+                        c.op('K', 29, 0)
+                        c.op('Q', 0, p)
+                        c.op('KF', 0, 29)
                 marks.append((c.op('OS', 0), j))
         else:
             wins = sorted(rng.randint(5, n - 60) for _ in range(4))
